@@ -59,6 +59,7 @@ int __wrap_ascon_trng_generate(unsigned char *out, size_t outlen) {
     ++g_src_calls;
     if (!g_src_active) {            // no tape installed: deterministic filler, reported healthy
         for (size_t i = 0; i < outlen; ++i) out[i] = (unsigned char)(0x11 * (i + 1) + g_src_calls);
+        if (g_taint_src) (void)VALGRIND_MAKE_MEM_UNDEFINED(out, outlen);
         return 1;
     }
     int ok = 0; bytes_t b;
